@@ -54,7 +54,15 @@ func (yn *YamlNode) IsIdentical(b *YamlNode) bool {
 
 func newYamlNode(node *yaml.Node, offsetLine, offsetColumn int, contentLines []string, minColumn int) *YamlNode {
 	pos := diags.NewPositionRange(contentLines, node, minColumn)
-	pos.AddOffset(offsetLine, offsetColumn)
+	for i := range pos {
+		column := offsetColumn
+		if pos[i].Line >= 1 && pos[i].Line <= len(contentLines) && contentLines[pos[i].Line-1] == "" {
+			// An empty line of a nested document is an empty line of the file,
+			// there is no indentation to skip.
+			column = 0
+		}
+		pos[i:i+1].AddOffset(offsetLine, column)
+	}
 	return &YamlNode{
 		Pos:   pos,
 		Value: nodeValue(node),
